@@ -15,12 +15,17 @@ missed = []
 for name in names:
     meta = json.load(open(f'/verif/seeded/{name}/meta.json'))
     pid = meta['property']
+    # the property's own check, and the neighbouring checks that were found
+    # to catch this change (some changes belong to two properties)
+    checks = sorted(set([pid]) | {
+        c for c, res in meta.get('checks', {}).items() if res.get('exit') == 1})
     r = subprocess.run(['python3', 'tools/seed_eval.py', pid, '--name', name,
-                        '--skip-verify'], cwd='/verif', capture_output=True,
-                       text=True)
-    line = (r.stdout.strip().splitlines() or [r.stderr[-200:]])[-1]
-    print(f'{name:10s} {line[:200]}', flush=True)
-    if 'exit=1' not in line:
+                        '--skip-verify', '--checks', ','.join(checks)],
+                       cwd='/verif', capture_output=True, text=True)
+    lines = [ln for ln in r.stdout.strip().splitlines() if 'exit=' in ln] \
+        or [r.stderr[-200:]]
+    print(f'{name:10s} ' + ' | '.join(ln[:110] for ln in lines), flush=True)
+    if not any('exit=1' in ln for ln in lines):
         missed.append(name)
 print('missed:', missed)
 sys.exit(1 if missed else 0)
